@@ -237,7 +237,16 @@ func executeWith(vm *otto.Otto, spec rtSpec, script, program func() interface{},
 	// call every function the history and the programs left in the global scope (closures, bound functions
 	// made before Copy() …): storage shared between a template and its copies is then used concurrently
 	out = append(out, fmt.Sprintf("held-errors:%v | %v", heldRun, heldCompile))
+	// the exported functions are called without arguments, which generated ones were not written for: a runtime
+	// without an interrupt channel gets a poll budget for this step only (a hit discards the case)
+	unarmed := vm.Interrupt == nil
+	if unarmed {
+		harness.Arm(vm, 200_000)
+	}
 	out = append(out, "exercise:"+runOn(vm, heap.Exercise))
+	if unarmed {
+		vm.Interrupt = nil
+	}
 	out = append(out, "trace:"+runOn(vm, `__trace.join("\n")`))
 	return out
 }
@@ -393,7 +402,12 @@ func runCase(c raceCase) (v verdict) {
 	baseline := make([][]string, len(c.Runtimes))
 	twins := 0
 	for i, spec := range c.Runtimes {
-		vm := makeRuntime(tmplA, spec)
+		// alone, every runtime runs under a poll budget, also those that will have no interrupt channel in the
+		// concurrent phase: a program that does not terminate on this heap (generated programs were written for an
+		// empty one) discards the case here instead of spinning until the worker is given up
+		armed := spec
+		armed.Interrupt = true
+		vm := makeRuntime(tmplA, armed)
 		baseline[i] = execute(vm, spec, scriptA, progA, c.Reuse)
 		if spec.Shared && twins < 2 {
 			twins++
@@ -571,8 +585,8 @@ func countKind(c raceCase, k string) int {
 var raceFacet = harness.Register(&harness.Facet[raceCase]{
 	Name:     "concurrent-runtimes",
 	Rule:     "rapid: a template history (all heap builders plus 1-3 drawn ones), one shared source compiled once to a Script and parsed once to a Program, and 2-8 runtimes of mixed provenance (fresh, copies of the template, copies of such copies that run at the same time, the template itself; a third of them first draw from Math.random without a source of their own), each sweeping the whole standard library once or twice and then running 1-4 private programs followed by a call of every function left in the global scope (heap builders/mutators, programs touching every subsystem with package-level data: regexp, JSON, Date, sort, number formatting, Math with a per-runtime random source, URI functions, error creation and stack text, accessor descriptors, Function/eval, strings; 30% from the semantic generator), half of them with an interrupt channel, a Script reuse count 1-50, GOMAXPROCS 2/4/16, optionally Copy() of the template from several goroutines while it runs. Executed in a -race worker subprocess. Oracle: (1) no race report / fatal error (worker death is attributed to the case), (2) each runtime's results and host-free trace equal those of the same programs run alone sequentially, (3) the structural hash of the compiled Script (read-only reflection over all fields) is unchanged by execution, (4) a sharing runtime gets the same results when the shared source is compiled afresh before every run instead of once (a Script that remembers its previous run), (5) stability: a fresh runtime computes the same canary (formatting probes and the library sweep) before, between and after the phases of every case as at the start of the worker process. Non-trivial = at least two runtimes share the Script/Program or the template; distinct by case",
-	Quick:    24,
-	Thorough: 40,
+	Quick:    40,
+	Thorough: 100,
 	Gen: func(t *rapid.T) raceCase {
 		c := raceCase{Reuse: rapid.SampledFrom([]int{1, 2, 5, 20, 50}).Draw(t, "reuse"), Procs: rapid.SampledFrom([]int{2, 4, 16}).Draw(t, "procs")}
 		for i, n := 0, rapid.IntRange(1, 3).Draw(t, "nsetup"); i < n; i++ {
